@@ -687,6 +687,71 @@ func runSequence(ctx *core.Ctx, in input) error {
 	return nil
 }
 
+// addHooks: see harness/c01 - the package's pure helpers called through the hook file; skipped
+// (with a note in the summary) when the tree under test has no hook file.
+func addHooks(ctx *core.Ctx, ins []encx.HookInput) error {
+	cases, present, err := encx.HookCases(ins)
+	if err != nil {
+		return err
+	}
+	if !present {
+		ctx.Sink.Extra["hooks"] = "schemes/enc/v1/verif_hooks.go absent in the tree under test: hook classes skipped"
+		return nil
+	}
+	ctx.Sink.Extra["hooks"] = "present"
+	for _, c := range cases {
+		ctx.Sink.Count("recipe=" + c.Kind)
+		ctx.Sink.Add(c)
+	}
+	return nil
+}
+
+// hookInputs: position binding on segment numbers no document of practical size reaches -
+// every PAIR of (number, last flag) among the values straddling each byte boundary of the 32-bit
+// counter must give different nonces, and a segment made for one position must not open at a
+// position that differs in one counter byte, by one, or in the last flag.
+func hookInputs(r *hx.Rand, thorough bool) []encx.HookInput {
+	type pos struct {
+		n    uint32
+		last bool
+	}
+	var ps []pos
+	for _, n := range encx.CounterBoundaries {
+		ps = append(ps, pos{n, false}, pos{n, true})
+	}
+	var ins []encx.HookInput
+	np := r.Bytes(7)
+	for i := range ps {
+		for j := i + 1; j < len(ps); j++ {
+			ins = append(ins, encx.HookInput{Kind: "hook", Op: "pair", Np: np, Num: ps[i].n, Last: ps[i].last, Num2: ps[j].n, Last2: ps[j].last})
+		}
+	}
+	nums := append([]uint32(nil), encx.CounterBoundaries...)
+	extra := 6
+	if thorough {
+		extra = 200
+	}
+	for i := 0; i < extra; i++ {
+		nums = append(nums, uint32(r.U64()>>uint(r.Intn(33))))
+	}
+	k := 0
+	for _, n := range nums {
+		for _, last := range []bool{false, true} {
+			others := []pos{{n + 1, last}, {n - 1, last}, {n ^ 1<<8, last}, {n ^ 1<<16, last}, {n ^ 1<<24, last}, {n, !last},
+				{n ^ 0xff00ff00, last}, {uint32(r.U64()), r.Bool()}}
+			for _, o := range others {
+				if o.n == n && o.last == last {
+					continue
+				}
+				k++
+				ins = append(ins, encx.HookInput{Kind: "hook", Op: "open", Fk: r.Bytes(32), Np: r.Bytes(7), Cph: 1 + k%2,
+					Data: r.Bytes(r.Range(1, 24)), Num: o.n, Last: o.last, Num2: n, Last2: last})
+			}
+		}
+	}
+	return ins
+}
+
 func gen(ctx *core.Ctx) {
 	r := ctx.R
 	names := make([]string, 0, len(recipes))
@@ -776,6 +841,11 @@ func gen(ctx *core.Ctx) {
 			}
 		}
 	}
+	// position binding beyond any practical document size, through the hook file
+	if err := addHooks(ctx, hookInputs(r, ctx.Thorough)); err != nil {
+		fmt.Fprintln(os.Stderr, "c02:", err)
+		os.Exit(2)
+	}
 	// multi-segment documents: oracle only
 	S := encx.S
 	bigLens := []int{S + 1, 2 * S, 2*S + 5}
@@ -819,6 +889,16 @@ func main() {
 		Shard:    1 << 30,
 		Gen:      gen,
 		RunInput: func(ctx *core.Ctx, raw json.RawMessage) error {
+			var probe struct {
+				Kind string `json:"kind"`
+			}
+			if json.Unmarshal(raw, &probe) == nil && probe.Kind == "hook" {
+				var h encx.HookInput
+				if err := json.Unmarshal(raw, &h); err != nil {
+					return err
+				}
+				return addHooks(ctx, []encx.HookInput{h})
+			}
 			var in input
 			if err := json.Unmarshal(raw, &in); err != nil {
 				return err
